@@ -47,6 +47,11 @@ def _case(draw, max_rows=7):
         nk = draw(st.integers(0 if kind == 'shared' else 1, 3))
     nl = draw(st.integers(0, max_rows))
     nr = draw(st.integers(0, max_rows))
+    profile = draw(st.sampled_from(['even'] * 6 + ['long_right', 'long_left']))
+    if profile == 'long_right':        # one side an order of magnitude longer than the other: size-dependent fast paths
+        nl, nr = draw(st.integers(1, 2)), draw(st.integers(9, 30))
+    elif profile == 'long_left':
+        nl, nr = draw(st.integers(9, 30)), draw(st.integers(1, 2))
     keyst = draw(st.sampled_from([_key, _key_narrow]))
     lnames = ['k%i' % (i + 1) for i in range(nk)]
     if kind in ('diffnames',):
@@ -273,6 +278,8 @@ def run_join(spec):
     cls = ['op=' + op, 'kind=' + kind, 'nk=%i' % nk, 'mode=%s' % (mode,)]
     if not L or not R:
         cls.append('empty_side')
+    if L and R and (len(R) > 8 * len(L) or len(L) > 8 * len(R)):
+        cls.append('lopsided_sizes')
     if m2m:
         cls.append('many_to_many')
     if eq_not_identical:
@@ -288,9 +295,9 @@ def run_join(spec):
 
 SUBS = [
     Sub('join_xor', lambda tier: _case(7 if tier == 'quick' else 12), run_join, quick=2500, thorough=20000,
-        rule='two tables (0-7 rows quick / 0-12 thorough), 0-3 key columns over a small colliding universe incl. NaN objects of two identities, '
+        rule='two tables (0-7 rows quick / 0-12 thorough, a quarter of the cases 1-2 rows against 9-30 rows), 0-3 key columns over a small colliding universe incl. NaN objects of two identities, '
              'int/float twins, None; key spellings None/name/list/different names/callable left/callable right/[] (cross); modes None,l,r,0,1,callable; '
              'x.join(y), x*y, x.xor(y), x/y. Oracle: nested-loop reference compared as multisets, anti-join + partition law, operands unchanged (cell identity), '
              'fuel-bounded termination. non-trivial = many-to-many key or keys equal but not identical (int vs float, two NaN objects)',
-        floor=0.2, class_floors={'nan_keys_of_two_identities_match': 0.03, 'many_to_many': 0.1, 'op=xor': 0.1}),
+        floor=0.2, class_floors={'nan_keys_of_two_identities_match': 0.03, 'many_to_many': 0.1, 'op=xor': 0.1, 'lopsided_sizes': 0.08}),
 ]
